@@ -34,6 +34,52 @@ type c15Case struct {
 	// message of its own holding that item, and merges the answers; requests that must be rejected as a whole pass
 	// through untouched). The items still belong to the one request the server received.
 	MessageMiddleware string `json:"message_middleware,omitempty"`
+	// Operation: the operation the items are sent as: "" = Activate (the handler answers "obs=<what it observed>"), or
+	// destroy | archive | recover | revoke: the same handler behind another operation, answering - as real handlers do -
+	// with the identifier it resolved, i.e. with the observed placeholder itself ("<empty>" if there was none). What an
+	// item stores or observes does not depend on which operation carries it.
+	Operation string `json:"items_sent_as,omitempty"`
+}
+
+// c15Op is the operation in force while a case runs (one case at a time per process).
+var c15Op string
+
+// c15Payload builds the request payload carrying identifier uid for the operation in force.
+func c15Payload(uid string) kmip.OperationPayload {
+	switch c15Op {
+	case "destroy":
+		return &payloads.DestroyRequestPayload{UniqueIdentifier: uid}
+	case "archive":
+		return &payloads.ArchiveRequestPayload{UniqueIdentifier: uid}
+	case "recover":
+		return &payloads.RecoverRequestPayload{UniqueIdentifier: uid}
+	case "revoke":
+		return &payloads.RevokeRequestPayload{UniqueIdentifier: uid, RevocationReason: kmip.RevocationReason{RevocationReasonCode: kmip.RevocationReasonCodeCessationOfOperation}}
+	}
+	return &payloads.ActivateRequestPayload{UniqueIdentifier: uid}
+}
+
+// c15RespID extracts the identifier a response payload carries, normalised to the observation it reports.
+func c15RespID(p kmip.OperationPayload) (string, bool) {
+	var id string
+	switch x := p.(type) {
+	case *payloads.ActivateResponsePayload:
+		id = x.UniqueIdentifier
+	case *payloads.DestroyResponsePayload:
+		id = x.UniqueIdentifier
+	case *payloads.ArchiveResponsePayload:
+		id = x.UniqueIdentifier
+	case *payloads.RecoverResponsePayload:
+		id = x.UniqueIdentifier
+	case *payloads.RevokeResponsePayload:
+		id = x.UniqueIdentifier
+	default:
+		return "", false
+	}
+	if id == "<empty>" {
+		return "", true
+	}
+	return strings.TrimPrefix(id, "obs="), true
 }
 
 // c15MW is the middleware in force while c15Check runs (one case at a time per process).
@@ -140,9 +186,9 @@ func c15Executor(b *barrier, mw string, msgMW ...string) *kmipserver.BatchExecut
 			return r, nil
 		})
 	}
-	exec.Route(kmip.OperationActivate, kmipserver.HandleFunc(func(ctx context.Context, req *payloads.ActivateRequestPayload) (*payloads.ActivateResponsePayload, error) {
+	handle := func(ctx context.Context, uid string) (string, error) {
 		// identifier: "<value>#<action>"
-		parts := strings.SplitN(req.UniqueIdentifier, "#", 2)
+		parts := strings.SplitN(uid, "#", 2)
 		val, action := parts[0], parts[1]
 		obs := kmipserver.IdPlaceholder(ctx)
 		switch action {
@@ -154,7 +200,7 @@ func c15Executor(b *barrier, mw string, msgMW ...string) *kmipserver.BatchExecut
 		case "readorid":
 			id, err := kmipserver.GetIdOrPlaceholder(ctx, "")
 			if err != nil {
-				return nil, err
+				return "", err
 			}
 			obs = id
 		case "nested":
@@ -165,12 +211,12 @@ func c15Executor(b *barrier, mw string, msgMW ...string) *kmipserver.BatchExecut
 				&payloads.ActivateRequestPayload{UniqueIdentifier: "in-" + val + "#set"}, &payloads.ActivateRequestPayload{UniqueIdentifier: "n2#read"})
 			resp := backend.HandleRequest(ctx, &inner)
 			if resp == nil || len(resp.BatchItem) != 3 {
-				return nil, errors.New("nested request: wrong response shape")
+				return "", errors.New("nested request: wrong response shape")
 			}
 			for k, want := range map[int]string{0: "obs=", 2: "obs=in-" + val} {
 				pl, _ := resp.BatchItem[k].ResponsePayload.(*payloads.ActivateResponsePayload)
 				if pl == nil || pl.UniqueIdentifier != want {
-					return nil, fmt.Errorf("nested request: item %d observed %+v, want %q (a request message starts with an empty placeholder of its own)", k, pl, want)
+					return "", fmt.Errorf("nested request: item %d observed %+v, want %q (a request message starts with an empty placeholder of its own)", k, pl, want)
 				}
 			}
 		case "readexplicit":
@@ -178,26 +224,68 @@ func c15Executor(b *barrier, mw string, msgMW ...string) *kmipserver.BatchExecut
 			want := "explicit-" + val
 			id, err := kmipserver.GetIdOrPlaceholder(ctx, want)
 			if err != nil || id != want {
-				return nil, fmt.Errorf("GetIdOrPlaceholder(%q) = %q, %v", want, id, err)
+				return "", fmt.Errorf("GetIdOrPlaceholder(%q) = %q, %v", want, id, err)
 			}
 		case "clear":
 			kmipserver.ClearIdPlaceholder(ctx)
 		case "fail":
-			return nil, errors.New("failed on purpose; observed=" + obs)
+			return "", errors.New("failed on purpose; observed=" + obs)
 		case "failonce":
-			n, _ := calls.LoadOrStore(req.UniqueIdentifier, new(int32))
+			n, _ := calls.LoadOrStore(uid, new(int32))
 			if atomic.AddInt32(n.(*int32), 1) == 1 {
-				return nil, errors.New("failed on purpose (first run); observed=" + obs)
+				return "", errors.New("failed on purpose (first run); observed=" + obs)
 			}
 		case "setfail":
 			kmipserver.SetIdPlaceholder(ctx, val)
-			return nil, errors.New("failed on purpose; observed=" + obs)
+			return "", errors.New("failed on purpose; observed=" + obs)
 		case "sync":
 			if b != nil {
 				b.wait()
 			}
 		}
+		return obs, nil
+	}
+	// handlers of the other operations answer with the identifier itself
+	echo := func(obs string) string {
+		if obs == "" {
+			return "<empty>"
+		}
+		return obs
+	}
+	exec.Route(kmip.OperationActivate, kmipserver.HandleFunc(func(ctx context.Context, req *payloads.ActivateRequestPayload) (*payloads.ActivateResponsePayload, error) {
+		obs, err := handle(ctx, req.UniqueIdentifier)
+		if err != nil {
+			return nil, err
+		}
 		return &payloads.ActivateResponsePayload{UniqueIdentifier: "obs=" + obs}, nil
+	}))
+	exec.Route(kmip.OperationDestroy, kmipserver.HandleFunc(func(ctx context.Context, req *payloads.DestroyRequestPayload) (*payloads.DestroyResponsePayload, error) {
+		obs, err := handle(ctx, req.UniqueIdentifier)
+		if err != nil {
+			return nil, err
+		}
+		return &payloads.DestroyResponsePayload{UniqueIdentifier: echo(obs)}, nil
+	}))
+	exec.Route(kmip.OperationArchive, kmipserver.HandleFunc(func(ctx context.Context, req *payloads.ArchiveRequestPayload) (*payloads.ArchiveResponsePayload, error) {
+		obs, err := handle(ctx, req.UniqueIdentifier)
+		if err != nil {
+			return nil, err
+		}
+		return &payloads.ArchiveResponsePayload{UniqueIdentifier: echo(obs)}, nil
+	}))
+	exec.Route(kmip.OperationRecover, kmipserver.HandleFunc(func(ctx context.Context, req *payloads.RecoverRequestPayload) (*payloads.RecoverResponsePayload, error) {
+		obs, err := handle(ctx, req.UniqueIdentifier)
+		if err != nil {
+			return nil, err
+		}
+		return &payloads.RecoverResponsePayload{UniqueIdentifier: echo(obs)}, nil
+	}))
+	exec.Route(kmip.OperationRevoke, kmipserver.HandleFunc(func(ctx context.Context, req *payloads.RevokeRequestPayload) (*payloads.RevokeResponsePayload, error) {
+		obs, err := handle(ctx, req.UniqueIdentifier)
+		if err != nil {
+			return nil, err
+		}
+		return &payloads.RevokeResponsePayload{UniqueIdentifier: echo(obs)}, nil
 	}))
 	return exec
 }
@@ -289,7 +377,7 @@ func c15Request(conn, reqIdx int, actions []string) *kmip.RequestMessage {
 	}
 	var pls []kmip.OperationPayload
 	for i, a := range actions {
-		pls = append(pls, &payloads.ActivateRequestPayload{UniqueIdentifier: fmt.Sprintf("c%dr%di%d#%s", conn, reqIdx, i, strings.TrimSuffix(a, "+ext"))})
+		pls = append(pls, c15Payload(fmt.Sprintf("c%dr%di%d#%s", conn, reqIdx, i, strings.TrimSuffix(a, "+ext"))))
 	}
 	m := kmip.NewRequestMessage(kmip.V1_4, pls...)
 	// optional header fields that do not change what the items do: Batch Order Option (absent / true / false by request number)
@@ -341,11 +429,10 @@ func c15Check(conn, reqIdx int, actions []string, resp *kmip.ResponseMessage) er
 			}
 			continue
 		}
-		pl, _ := it.ResponsePayload.(*payloads.ActivateResponsePayload)
-		if pl == nil {
+		obs, hasPayload := c15RespID(it.ResponsePayload)
+		if !hasPayload {
 			return fmt.Errorf("conn %d request %d item %d: no payload", conn, reqIdx, i)
 		}
-		obs := strings.TrimPrefix(pl.UniqueIdentifier, "obs=")
 		ok := false
 		for _, a := range accept[i] {
 			if a == obs {
@@ -382,6 +469,7 @@ func c15Run(t *testing.T, c c15Case) (sig string, err error) {
 		b = nil
 	}
 	c15MW = c.ItemMiddleware
+	c15Op = c.Operation
 	exec := c15Executor(b, c.ItemMiddleware, c.MessageMiddleware)
 	var mu sync.Mutex
 	var first error
@@ -469,7 +557,7 @@ func c15Run(t *testing.T, c c15Case) (sig string, err error) {
 
 func TestC15Placeholder(t *testing.T) {
 	const name = "TestC15Placeholder"
-	rec := evid.New("C15", name, "1..4 connections (through a real Server over an in-memory listener in a synctest bubble) or 2..6 goroutines calling HandleRequest directly, each issuing 0..2 requests that are rejected at message level (unsupported version, batch count mismatch, Undo) followed by 1..4 requests of 1..6 placeholder actions (set / set the empty string / read / read-or-id / read with an explicit identifier / forward a nested request to a back-end executor / clear / fail / set-then-fail / fail on the first run only, each item optionally carrying a non-critical message extension); the executor has no batch item middleware, a pass-through one, one that turns a handler error into a successful item, or one that runs a failed item once more, and optionally a message middleware that hands on a copy of the message or that runs the batch item by item (one continuation call and one message per item, answers merged); "+
+	rec := evid.New("C15", name, "1..4 connections (through a real Server over an in-memory listener in a synctest bubble) or 2..6 goroutines calling HandleRequest directly, each issuing 0..2 requests that are rejected at message level (unsupported version, batch count mismatch, Undo) followed by 1..4 requests of 1..6 placeholder actions (set / set the empty string / read / read-or-id / read with an explicit identifier / forward a nested request to a back-end executor / clear / fail / set-then-fail / fail on the first run only, each item optionally carrying a non-critical message extension), the items being sent as Activate, Destroy, Archive, Recover or Revoke requests (handlers of the latter answer with the identifier they resolved, i.e. the observed placeholder itself); the executor has no batch item middleware, a pass-through one, one that turns a handler error into a successful item, or one that runs a failed item once more, and optionally a message middleware that hands on a copy of the message or that runs the batch item by item (one continuation call and one message per item, answers merged); "+
 		"rendezvous items inside the first request of every connection force the requests to overlap in time at chosen items; values are unique per request; oracle: per-request placeholder model (empty at start, set visible to later items, never a foreign value); "+
 		"non-trivial = set followed by read in a request that overlaps another one, or a second request on a connection after a set; distinct by case").Attach(t)
 	if rp := evid.LoadReplay(name); rp != nil {
@@ -485,7 +573,8 @@ func TestC15Placeholder(t *testing.T) {
 	actions := []string{"set", "set", "read", "read", "readorid", "readexplicit", "nested", "clear", "setempty", "fail", "setfail", "failonce"}
 	rapid.Check(t, func(rt *rapid.T) {
 		c := c15Case{Direct: rapid.Bool().Draw(rt, "direct"), ItemMiddleware: rapid.SampledFrom([]string{"", "", "pass", "absorb", "retry"}).Draw(rt, "item-middleware"),
-			MessageMiddleware: rapid.SampledFrom([]string{"", "", "copy", "chunk"}).Draw(rt, "message-middleware")}
+			MessageMiddleware: rapid.SampledFrom([]string{"", "", "copy", "chunk"}).Draw(rt, "message-middleware"),
+			Operation:         rapid.SampledFrom([]string{"", "", "", "destroy", "destroy", "archive", "recover", "revoke"}).Draw(rt, "operation")}
 		nconn := rapid.IntRange(1, 4).Draw(rt, "connections")
 		if c.Direct {
 			nconn = rapid.IntRange(2, 6).Draw(rt, "goroutines")
@@ -542,7 +631,7 @@ func TestC15Placeholder(t *testing.T) {
 			c.Conns = append(c.Conns, reqs)
 		}
 		key, _ := json.Marshal(c)
-		rec.Case(nt, key, fmt.Sprintf("direct=%v", c.Direct), fmt.Sprintf("syncs=%d", syncs), "item-middleware="+c.ItemMiddleware, "message-middleware="+c.MessageMiddleware)
+		rec.Case(nt, key, fmt.Sprintf("direct=%v", c.Direct), fmt.Sprintf("syncs=%d", syncs), "item-middleware="+c.ItemMiddleware, "message-middleware="+c.MessageMiddleware, "operation="+c.Operation)
 		if nt && rec.WantSample() && len(key) < 1200 {
 			rec.Sample(c)
 		}
